@@ -178,27 +178,13 @@ def main(run):
 
 
 def finding_handlers(run, shoot):
-    def setonly(f):
-        w = f["witness"]
-
-        def check(r, mod):
-            if r["rc"] != 0 or r["panicked"]:
-                return "other: shoot new failed: " + r["err"][-200:]
-            r2 = l2.run_shoot(shoot, mod / "src", ["map", "-path=../dest", "-type=T"], timeout=60)
-            if r2["rc"] != 0 or r2["panicked"]:
-                return "other: shoot map failed: " + r2["err"][-200:]
-            ok, errs = l2.go_build(mod, ("./src",))
-            if ok:
-                return "correct"
-            txt = " ".join(" ".join(v) for v in errs.values())
-            return "buggy" if "SetSecret" in txt else "other: " + txt[:300]
-        # `shoot new` runs in the dest package first
-        mod = l2.make_module(run, "kf_" + f["id"])
-        (mod / "go.mod").write_text((mod / "go.mod").read_text().replace("module kf_" + f["id"], "module vmod"))
-        l2.write_files(mod, {"src/src.go": w["src"], "dest/dest.go": w["dest"]})
-        r = l2.run_shoot(shoot, mod / "dest", ["new", "-getset", "-type=T"], timeout=60)
-        return check(r, mod)
-    return {"K_map_setonly_read": setonly}
+    def generic(f):
+        return mh.witness_outcome(run, shoot, f)
+    h = {k: generic for k in ("K_map_setonly_read", "K_map_ctor_func_nil_receiver", "K_map_ctor_ptr_conv",
+                              "K_map_ctor_arg_unguarded", "K_map_dash_accessor", "K_map_ctor_from_tag",
+                              "K_map_ctor_priority", "K_map_ctor_no_submap")}
+    h["K_map_state_leak"] = lambda f: mh.state_leak_outcome(run, shoot, f)
+    return h
 
 
 def replay(run, path):
